@@ -573,10 +573,17 @@ func VerifCheck_replace() {
 	type piece struct {
 		idx, ln int
 		exp     string
+		groups  []string // texts of groups 1.. of this match (what Split interleaves)
 	}
 	var ps []piece
 	for m != nil && (count < 0 || len(ps) < count) {
-		ps = append(ps, piece{m.RuneIndex, m.RuneLength, verifExpand(re, rep, m, rs)})
+		var gt []string
+		for gi, g := range m.Groups() {
+			if gi > 0 {
+				gt = append(gt, g.String())
+			}
+		}
+		ps = append(ps, piece{m.RuneIndex, m.RuneLength, verifExpand(re, rep, m, rs), gt})
 		if len(ps) > len(rs)+2 {
 			verifFail("iteration-does-not-terminate", "")
 		}
@@ -630,12 +637,46 @@ func VerifCheck_replace() {
 		verifAssert("Split-piece-count", len(parts) == len(ps)*(1+ng)+1)
 		if len(parts) == len(ps)*(1+ng)+1 {
 			re2 := ""
+			groupsOK := true
 			for i, p := range ps {
 				re2 += parts[i*(1+ng)] + string(rs[p.idx:p.idx+p.ln])
+				for gi := 0; gi < ng && gi < len(p.groups); gi++ {
+					groupsOK = verifAnd(groupsOK, parts[i*(1+ng)+1+gi] == p.groups[gi])
+				}
 			}
 			re2 += parts[len(parts)-1]
 			verifAssert("Split-rejoin==input", re2 == s)
+			verifAssert("Split-group-pieces==captures", groupsOK)
 			verifReach("split-leg")
+		}
+		// with a count: the pieces are still texts-between + groups of a prefix (in scan order) of the match
+		// sequence, and re-join to the input
+		for _, k := range []int{0, 1, 2, 3} {
+			kp, err := re.Split(s, k)
+			if err != nil {
+				verifFail("error-split", err.Error())
+			}
+			if k == 0 {
+				verifAssert("Split(count=0)==nil", len(kp) == 0)
+				continue
+			}
+			if (len(kp)-1)%(1+ng) != 0 {
+				verifFail("Split(count)-piece-count", "")
+			}
+			used := (len(kp) - 1) / (1 + ng)
+			verifAssert("Split(count)-uses-at-most-all-matches", used <= len(ps))
+			if used <= len(ps) {
+				sel := ps[:used]
+				if rtl {
+					sel = ps[len(ps)-used:] // right-to-left: the matches nearest the end come first
+				}
+				re3 := ""
+				for i, p := range sel {
+					re3 += kp[i*(1+ng)] + string(rs[p.idx:p.idx+p.ln])
+				}
+				re3 += kp[len(kp)-1]
+				verifAssert("Split(count)-rejoin==input", re3 == s)
+			}
 		}
 	}
 	verifReach("end")
